@@ -56,10 +56,14 @@ EdgesOfSize(N, d) == {e \in SUBSET (1..N) : Cardinality(e) = d}
 
 \* expected number of hyperedges of size d: sum over ALL hyperedges of that size of Lambda / kappa
 ExpCountBF(Lam, N, d) == LET L(e) == Lam[e] IN RNorm(<<ISum(L, EdgesOfSize(N, d)), Kappa(N, d)>>)
-\* expected degree of node i for the sizes d: sum over all hyperedges of size d containing i
+\* expected degree of node i from the hyperedges of ONE size d: sum over all hyperedges of size d containing i
 ExpDegBF1(Lam, N, d, i) == LET L(e) == Lam[e] IN RNorm(<<ISum(L, {e \in EdgesOfSize(N, d) : i \in e}), Kappa(N, d)>>)
-ExpDegBF(Lam, N, ds, i) == LET P(d) == ExpDegBF1(Lam, N, d, i) IN RSum(P, ds)
-AvgDegBF(Lam, N, ds)    == LET E(i) == ExpDegBF(Lam, N, ds, i) IN RMul(RSum(E, 1..N), <<1, N>>)
+DegTable(Lam, N)        == [i \in 1..N |-> [d \in 2..N |-> ExpDegBF1(Lam, N, d, i)]]
+\* ... and for a set ds of sizes; T is DegTable (a caller may evaluate it once)
+ExpDegBFT(T, ds, i)     == LET P(d) == T[i][d] IN RSum(P, ds)
+AvgDegBFT(T, N, ds)     == LET E(i) == ExpDegBFT(T, ds, i) IN RMul(RSum(E, 1..N), <<1, N>>)
+ExpDegBF(Lam, N, ds, i) == ExpDegBFT(DegTable(Lam, N), ds, i)
+AvgDegBF(Lam, N, ds)    == AvgDegBFT(DegTable(Lam, N), N, ds)
 
 \* ---- the closed forms, as the code states them ----------------------------------
 USum(U, W)  == [a \in KK(W) |-> LET T(i) == U[i][a] IN ISum(T, DOMAIN U)]
@@ -75,15 +79,19 @@ PoissonCF(U, W, e) ==
   LET s == TLCEval([a \in KK(W) |-> LET T(i) == U[i][a] IN ISum(T, e)])
       Q(i) == Qf(U[i], W)
   IN RNorm(<<Qf(s, W) - ISum(Q, e), 2>>)
-\* expected_degree(per_node=True): C * first + C' * second
-ExpDegCF(U, W, N, ds, i) ==
+\* expected_degree(per_node=True): C * first + C' * second, with the two node terms of the code
+NodeTerms(U, W, i) ==
   LET S == TLCEval(USum(U, W))
       first == Bf(U[i], S, W) - Qf(U[i], W)
       rest == TLCEval([a \in KK(W) |-> S[a] - U[i][a]])
       second == <<Qf(rest, W) - QfSum(U, W) + Qf(U[i], W), 2>>
-  IN RAdd(RMul(CC(ds), RInt(first)), RMul(CPrime(N, ds), second))
-AvgDegCF(U, W, N, ds)  == RMul(CSecond(N, ds), BfSum(U, W))
-ExpCountCF(U, W, N, d) == RMul(CC({d}), BfSum(U, W))
+  IN <<first, second>>
+ExpDegCFT(nt, N, ds)     == RAdd(RMul(CC(ds), RInt(nt[1])), RMul(CPrime(N, ds), nt[2]))
+ExpDegCF(U, W, N, ds, i) == ExpDegCFT(NodeTerms(U, W, i), N, ds)
+AvgDegCFT(bfsum, N, ds)  == RMul(CSecond(N, ds), bfsum)                      \* expected_degree(per_node=False): C'' * bf_and_sum
+AvgDegCF(U, W, N, ds)    == AvgDegCFT(BfSum(U, W), N, ds)
+ExpCountCFT(bfsum, d)    == RMul(CC({d}), bfsum)                             \* dimension_sequence: C summand * bf_and_sum
+ExpCountCF(U, W, N, d)   == ExpCountCFT(BfSum(U, W), d)
 
 Symmetric(W) == \A a, b \in KK(W) : W[a][b] = W[b][a]
 =============================================================================
